@@ -36,8 +36,16 @@ PROP = dict(
           "Accepted sockets (part accept): an asl Socket binds 127.0.0.1:0, is given setEndian(BIG / LITTLE / NATIVE) or nothing, listens and accepts "
           "a connection made by the harness; the accepted Socket is used as it comes (3 of 4 cases: its order is its own default, NATIVE, whatever the "
           "listener was set to) or after its own setEndian, and writes typed values to / reads them from a peer that expects / sends the reference bytes. "
+          "Copies of a configured File (op 'fcopy', one sequence in four): the order is set on an unopened File object and a copy of it - copy-constructed, "
+          "passed to and returned from a function by value, or stored in an Array<File> - opens the file and does all writing / reading; the copy keeps "
+          "the configured order, as the unchanged library's copy constructor does. Big writes (part bigwrite, 3 cases per worker in quick, 12 in "
+          "thorough): an Array of 1..2 MiB (unsigned, int, double, Long, unsigned short or bytes) in a non-swapping order is written with ONE << to a TCP "
+          "loopback socket with 16 KB buffers and a 20 ms send timeout (Socket::setOption) against a reader that takes about 4 KB per millisecond, so the "
+          "single Socket::write needs many short send()s; an order switch and more values follow; the reader's bytes must equal the reference. If a "
+          "send() makes no progress within its timeout the library abandons the write with its error flag set (defined behaviour): such a run is counted "
+          "as inconclusive, not judged. "
           "Non-trivial: the sequence contains a non-empty array of a multi-byte type, or an effective order switch, or NATIVE order, or a multi-byte "
-          "array written again, or a cut inside a value whose next piece holds more than the rest of that value, or a later session of a reconnecting Socket that carries multi-byte data in BIG order without an order item of its own, or an untouched accepted Socket next to a BIG listener carrying multi-byte data. Distinct = distinct FNV-1a hash of "
+          "array written again, or a cut inside a value whose next piece holds more than the rest of that value, or a later session of a reconnecting Socket that carries multi-byte data in BIG order without an order item of its own, or an untouched accepted Socket next to a BIG listener carrying multi-byte data, or multi-byte data in BIG order written / read through a copy of the configured File. Distinct = distinct FNV-1a hash of "
           "the serialised case."),
     assumptions=["the reference serializer (shifts of the unsigned bit pattern; NATIVE decided by inspecting the bytes of uint16_t 1) is right",
                  "bool values are true/false only (a bool object holding another bit pattern is not a value)",
